@@ -240,6 +240,58 @@ var ifaceRe = regexp.MustCompile(`interface \{\} is [^,@]+, not`)
 
 var helmFrameRe = regexp.MustCompile(`(?m)^(helm\.sh/helm/v4/(?:pkg|internal|cmd)/[^\s(]+(?:\([^)]*\))?[^\s(]*)\(`)
 
+// attributeGrowth names the recursion site from an all-goroutine dump. The runtime prints only the
+// innermost 50 and the outermost 50 frames of a deep stack, so only the innermost part of the
+// biggest goroutine is looked at (anything else would depend on how deep the stack happened to
+// be): a helm frame there is the site (printed as a frame line for the runner's crash class);
+// otherwise the recursion runs inside a library and the message names its package.
+func attributeGrowth(dump string) (where, frameLine string) {
+	var big string
+	for _, blk := range strings.Split(dump, "\n\n") {
+		if strings.Contains(blk, "startMemGuard") {
+			continue
+		}
+		if len(blk) > len(big) {
+			big = blk
+		}
+	}
+	if i := strings.Index(big, " frames elided..."); i >= 0 { // "...N frames elided..." / "...additional frames elided..."
+		big = big[:i]
+	}
+	if m := helmFrameRe.FindStringSubmatch(big); m != nil {
+		return "", m[1] + "(...)"
+	}
+	count := map[string]int{}
+	for _, l := range strings.Split(big, "\n") {
+		if l == "" || l[0] == '\t' || strings.HasPrefix(l, "goroutine ") {
+			continue
+		}
+		fn := l
+		if i := strings.LastIndex(fn, "("); i > 0 {
+			fn = fn[:i]
+		}
+		pkg := fn
+		slash := strings.LastIndex(fn, "/")
+		if dot := strings.Index(fn[slash+1:], "."); dot >= 0 {
+			pkg = fn[:slash+1+dot]
+		}
+		if pkg == "runtime" || pkg == "reflect" || strings.HasPrefix(pkg, "internal/") || strings.Contains(pkg, "verifh") {
+			continue
+		}
+		count[pkg]++
+	}
+	best := ""
+	for p, n := range count {
+		if n > count[best] || n == count[best] && p < best {
+			best = p
+		}
+	}
+	if best == "" {
+		best = "unknown code"
+	}
+	return " inside " + best, "(no helm frame among the innermost frames)"
+}
+
 func startMemGuard() {
 	guardOnce.Do(func() {
 		go func() {
@@ -259,14 +311,11 @@ func startMemGuard() {
 					}
 					buf := make([]byte, 4<<20)
 					buf = buf[:runtime.Stack(buf, true)]
-					fr := "(no helm frame found)"
-					if m := helmFrameRe.FindSubmatch(buf); m != nil {
-						fr = string(m[1])
-					}
+					where, fr := attributeGrowth(string(buf))
 					if len(buf) > 20000 {
 						buf = buf[:20000]
 					}
-					fmt.Fprintf(os.Stderr, "fatal error: c20 memory guard: heap+stack beyond the limit for an input of at most 64 KiB (unbounded growth)\n%s(...)\nlive after a forced collection: heap=%d stack=%d bytes\n\n%s\n", fr, ms.HeapAlloc, ms.StackInuse, buf)
+					fmt.Fprintf(os.Stderr, "fatal error: c20 memory guard: heap+stack beyond the limit for an input of at most 64 KiB (unbounded growth)%s\n%s\nlive after a forced collection: heap=%d stack=%d bytes\n\n%s\n", where, fr, ms.HeapAlloc, ms.StackInuse, buf)
 					os.Exit(3)
 				}
 			}
@@ -360,6 +409,9 @@ func post(a *core.Agg) string {
 		if a.Stats[k] < 20 {
 			return fmt.Sprintf("positive control: %s succeeded only %d times", k, a.Stats[k])
 		}
+	}
+	if a.Stats["chart_loaded_with_mutated_requirements"] < 20 {
+		return fmt.Sprintf("positive control: only %d charts with a mutated requirements.yaml/lock were loaded and sent through dependency processing", a.Stats["chart_loaded_with_mutated_requirements"])
 	}
 	return ""
 }
